@@ -9,6 +9,18 @@ Open Scope Z_scope.
 
 Definition clause_tag (pfx : string) (n : Z) : sexp := S (str pfx ++ itoa n).
 
+(* every connection of the scenario is judged by the reply class of what the panel sent first
+   on THAT connection: flag and error text given to that onconnect, bytes that peer received *)
+Fixpoint c12_conns (s : scn) (i : nat) (gs : list grp) (peers : list (Z * bytes * Z * Z)) : list Z :=
+  match gs, peers with
+  | g :: gs', (_, recv, _, _) :: ps' =>
+    match c12_judge true (classify_reply (nth_reply s i)) (snd (g_con g)) (snd (fst (g_con g))) recv with
+    | [] => c12_conns s (Datatypes.S i) gs' ps'
+    | n :: _ => [n + 100 * Z.of_nat i]
+    end
+  | _, _ => []
+  end.
+
 Definition c12_fails (s : scn) : list Z :=
   let o := s_obs s in
   let rc := classify_reply (first_reply s) in
@@ -19,7 +31,7 @@ Definition c12_fails (s : scn) : list Z :=
     end
   else
     match obs_groups o, obs_peers o with
-    | g :: _, (_, recv, _, _) :: _ => c12_judge true rc (snd (g_con g)) (snd (fst (g_con g))) recv
+    | _ :: _, _ :: _ => c12_conns s 0 (obs_groups o) (obs_peers o)
     | _, _ => [0]
     end.
 
